@@ -74,10 +74,9 @@ def parseTags (t : String) : Option (List Tag) :=
 def parseErr (t : String) : Option ErrRepr :=
   if t == "inv" then some .inv else
   match t.splitOn ":" with
-  | ["io", k, tok] => do
-    let k ← k.toNat?
-    let tok ← tok.toNat?
-    pure (.io k tok)
+  | ["io", k, tok] =>
+    -- an error the scripted sink did not make has no numeric token: it can never equal an expected one
+    some (.io (k.toNat?.getD 99) (tok.toNat?.getD 0))
   | _ => none
 
 def parseCallObs (t : String) : Option CallObs :=
@@ -185,7 +184,7 @@ def runFmt (prop : String) (f : List String) (obsS : String) : Verdict :=
                   | .error e => some (e.prop, e.clause)
               go (i + 1) cs' os' (projectCall prop io :: ip) (projectCall prop mo :: mp) v' (callTags pc mo ++ tg)
           | _, _ => if o == "panic/~/~" || o.startsWith "panic" then
-                      ⟨prop != "C20" && false, "panic", "no-panic", some ("C20", "a metric call panicked"), tg, false⟩
+                      ⟨prop != "C20" && false, "panic", "no-panic", some ("C03+C20", "a metric call panicked"), tg, false⟩
                     else bad
         | _, _ =>
           let ips := joinWith ";" ip.reverse
